@@ -35,7 +35,7 @@ TReset ==           \* a new service object
   /\ rounds' = 0 /\ expiries' = 0
   /\ cst' = [c \in Clients |-> "idle"] /\ cl' = [c \in Clients |-> 0]
   /\ sdpc' = "idle" /\ bdpc' = "idle" /\ rgpc' = "idle" /\ rgarg' = "" /\ rgret' = "none"
-  /\ gate' = FALSE
+  /\ gate' = FALSE /\ cancelled' = FALSE
   /\ g_sdWaiting' = FALSE /\ g_sdDoneAt' = {} /\ g_servedEp' = 0 /\ g_regs' = <<>>
   /\ sdAct' = FALSE /\ rgAct' = FALSE /\ bdAct' = FALSE /\ sdl' = FALSE /\ lAct' = FALSE
 
@@ -44,7 +44,7 @@ TInstall ==
   /\ Ev("Install") /\ E.id = nextid
   /\ listener' = nextid /\ lstate' = Append(lstate, "open") /\ nextid' = nextid + 1
   /\ sdpc' = IF sdpc = "done" THEN "idle" ELSE sdpc
-  /\ UNCHANGED <<running, counter, wg, names, spc, sl, tmo, acc, sret, rounds, expiries,
+  /\ UNCHANGED <<running, counter, wg, names, cancelled, spc, sl, tmo, acc, sret, rounds, expiries,
                  cst, cl, bdpc, rgpc, rgarg, rgret, gate, g_sdWaiting, g_sdDoneAt, g_servedEp, g_regs>>
   /\ KeepT
 
@@ -81,7 +81,7 @@ TListenerClose ==
 
 TShutdownStart == /\ Ev("ShutdownStart") /\ ~sdAct /\ sdpc \in {"idle", "done"}
                   /\ sdpc' = "idle"
-                  /\ UNCHANGED <<running, listener, lstate, nextid, counter, wg, names, spc, sl, tmo, acc, sret, rounds,
+                  /\ UNCHANGED <<running, listener, lstate, nextid, counter, wg, names, cancelled, spc, sl, tmo, acc, sret, rounds,
                                  expiries, cst, cl, bdpc, rgpc, rgarg, rgret, gate, g_sdWaiting, g_sdDoneAt, g_servedEp, g_regs>>
                   /\ sdAct' = TRUE /\ UNCHANGED <<rgAct, bdAct, sdl, lAct>>
 TShutdownEnd == /\ Ev("ShutdownEnd") /\ sdAct /\ sdpc = "done"
@@ -93,6 +93,7 @@ TConnectRefused == /\ Ev("ConnectRefused")
                       ELSE lstate[E.id] = "closed"
                    /\ UNCHANGED vars /\ KeepT
 TClientEnd == /\ Ev("ClientEnd") /\ EndClient(E.c) /\ KeepT
+TCtxCancel == /\ Ev("CtxCancel") /\ CtxCancel /\ KeepT
 TConnFirstRead == /\ Ev("ConnFirstRead") /\ cst[E.c] \in {"handled", "ended"} /\ UNCHANGED vars /\ KeepT
 TConnClosed == /\ Ev("ConnClosed") /\ cst[E.c] \in {"ended", "released"} /\ UNCHANGED vars /\ KeepT
 TActive == /\ Ev("Active") /\ counter = E.n /\ UNCHANGED vars /\ KeepT
@@ -116,7 +117,7 @@ TIntrospect == /\ Ev("Introspect")
 SilentRest ==
   /\ \/ D_GetL \/ L_SetRunning \/ L_Check \/ L_Timeout \/ L_AccErr \/ L_Inc \/ L_Spawn \/ T_Wait
      \/ (T_Teardown /\ lstate' = lstate)                  \* a close of an open listener must have been observed
-     \/ \E c \in Clients : H_Exit(c)
+     \/ \E c \in Clients : H_Exit(c) \/ H_CtxEnd(c)
      \/ (sdAct /\ (S_All \/ S_Clear \/ S_Close) /\ lstate' = lstate)
      \/ (rgAct /\ R_Insert)
      \/ (~rgAct /\ R_Again)
@@ -139,7 +140,7 @@ Silent ==
 
 TraceNext == TReset \/ TInstall \/ TBindStart \/ TBindEnd \/ TServeStart \/ TListenStart \/ TServeReturn \/ TSetDeadline \/ TRelease
              \/ TAcceptEnter \/ TAcceptConn \/ TAcceptTimeout \/ TAcceptClosed \/ TListenerClose
-             \/ TShutdownStart \/ TShutdownEnd \/ TConnect \/ TConnectRefused \/ TClientEnd \/ TConnFirstRead
+             \/ TShutdownStart \/ TShutdownEnd \/ TConnect \/ TConnectRefused \/ TClientEnd \/ TCtxCancel \/ TConnFirstRead
              \/ TConnClosed \/ TActive \/ TRegisterStart \/ TRegisterEnd \/ TIntrospect \/ Silent
 
 TraceSpec == TraceInit /\ [][TraceNext]_tvars
